@@ -37,6 +37,15 @@ func (r *Regime) SetRegime(country l10n.TaxCountryCode) {
 	r.Country = rd.Country
 }
 
+// NormalizeRegime replaces an alternative country code of a registered regime
+// ("XI" or "XU" for GB, "GR" for EL) with the regime's own code, the only
+// spelling the published schemas list. Unknown codes are left for validation.
+func (r *Regime) NormalizeRegime() {
+	if rd := Regimes().For(r.Country.Code()); rd != nil {
+		r.Country = rd.Country
+	}
+}
+
 // RegimeDef provides the associated regime definition.
 func (r Regime) RegimeDef() *RegimeDef {
 	return Regimes().For(r.Country.Code())
